@@ -345,8 +345,16 @@ var areaLocations = []string{"Europe/Berlin", "America/Vancouver", "Asia/Tokyo",
 const areaFirst = "AEMZX"
 const areaNext = "abzAZ09_-./+"
 
+// NoUTCOffsetZones makes Timezone skip UTC-offset zones (set by properties that must steer away from
+// a known finding about fixed-offset zones).
+var NoUTCOffsetZones func() bool
+
 func Timezone(t *rapid.T, label string) compact_time.Timezone {
-	switch rapid.IntRange(0, 5).Draw(t, label+".tz") {
+	k := rapid.IntRange(0, 5).Draw(t, label+".tz")
+	if k == 5 && NoUTCOffsetZones != nil && NoUTCOffsetZones() {
+		k = 3
+	}
+	switch k {
 	case 0:
 		return compact_time.TZAtUTC()
 	case 1:
@@ -402,6 +410,17 @@ func nanos(t *rapid.T, label string) int {
 	}
 }
 
+// StrictCalendar restricts TimeValue to values time.Time can hold unchanged: no leap second 60, no
+// February 29th outside leap years (compact_time's Validate accepts both).
+var StrictCalendar bool
+
+func realDate(y, m, d int) bool {
+	if m != 2 || d < 29 {
+		return true
+	}
+	return y%4 == 0 && (y%100 != 0 || y%400 == 0)
+}
+
 // TimeValue draws a valid compact time (date, time or timestamp) built only through the constructors.
 func TimeValue(t *rapid.T, label string) compact_time.Time {
 	for {
@@ -419,6 +438,9 @@ func TimeValue(t *rapid.T, label string) compact_time.Time {
 			v = compact_time.NewTime(h, mi, s, nanos(t, label), Timezone(t, label))
 		default:
 			v = compact_time.NewTimestamp(year(t, label), mo, d, h, mi, s, nanos(t, label), Timezone(t, label))
+		}
+		if StrictCalendar && (v.Second > 59 || (v.Type != compact_time.TimeTypeTime && !realDate(v.Year, int(v.Month), int(v.Day)))) {
+			continue
 		}
 		if v.Validate() == nil && !v.IsZeroValue() {
 			return v
